@@ -127,7 +127,7 @@ Fixpoint chunk_loop (s : str) (seg : str) (lens : list Z) : res chunk_entry :=
   | [] => RUndef          (* the loop ended on an 'x': chunk_rank is never assigned *)
   | c :: r =>
       if negb (is_digit c || existsb (Z.eqb c) chunk_alphabet) then RErr
-      else if 9 <? zlen seg + 1 then RUndef
+      else if negb (c =? ch_x) && (9 <? zlen seg + 1) then RUndef   (* sdim[10]: nine characters and the NUL *)
       else
         match r with
         | [] =>
@@ -177,7 +177,7 @@ Fixpoint digits_acc (fuel : nat) (n : Z) (acc : str) : str :=
   | O => acc
   | S f => if n <? 10 then (48 + n) :: acc else digits_acc f (n / 10) ((48 + n mod 10) :: acc)
   end.
-Definition print_nat (n : Z) : str := digits_acc 12 n [].
+Definition print_nat (n : Z) : str := digits_acc 9 n [].   (* numbers below 10^9: all the parser can take *)
 
 Fixpoint join (sep : Z) (l : list str) : str :=
   match l with
